@@ -1,4 +1,5 @@
 import Pyunicorn.Generated.ArithC17
+import Pyunicorn.Generated.StructC17
 /-
 Models of pyunicorn's randomisation kernels (property C17).  Core Lean only.
 
@@ -21,6 +22,14 @@ Distances are integers: the harness sends distance matrices and tolerances
 whose entries are multiples of a power of two (exact in float32), scaled to
 integers; the conditions only use `|x - y| < eps`, which is scale invariant.
 
+The conditions (`cond_len_c1`, `cond_len_c2`, `cond_deg_corr`), the `if` / `while` tests, the
+array writes (which cell, which value, in which order), the rows written back to `edges`, the
+exchange of the link ends in `cross_links`, the subscripts of `overwriteAdjacency` and the
+conditions each wrapper hands over are *not written here* either: they are the definitions
+`translate/gen_C17.py` regenerates from `numerics.pyx` / `interacting_networks.py` on every run
+(`Generated/StructC17.lean`); the closed forms the proofs work with are in
+`Lemmas/RandomSrc.lean`, each proved equal to what is executed here.
+
 Index and size expressions of the Python-level code (`Network.BarabasiAlbert`,
 `InteractingNetworks.RandomlySetCrossLinks(_sparse)`) are *not written here*: they are
 the definitions `translate/gen_arith.py` regenerates from the current source on every
@@ -28,6 +37,7 @@ run (`Generated/ArithC17.lean`).
 -/
 namespace Pyunicorn.Random
 open Pyunicorn.Generated.ArithC17
+open Pyunicorn.Generated.StructC17
 
 abbrev Adj := Nat → Nat → Bool
 
@@ -65,38 +75,34 @@ structure GeoCfg where
   /-- the `degree` array handed to model III -/
   degree : Nat → Int
 
-/-- `abs(D[a,b] - D[c,d]) < eps` -/
-def near (D : Nat → Nat → Int) (eps : Int) (a b c d : Nat) : Bool :=
-  decide (D a b - D c d < eps) && decide (D c d - D a b < eps)
+/-- a list of array writes `A[i,j] = v`, executed in order -/
+def applyWrites (A : Adj) (ws : List (Nat × Nat × Bool)) : Adj :=
+  ws.foldl (fun A w => A.set w.1 w.2.1 w.2.2) A
 
-/-- condition C1 (`cond_len_c1`) -/
-def condC1 (D : Nat → Nat → Int) (eps : Int) (s t k l : Nat) : Bool :=
-  (near D eps s t k t && near D eps k l s l) || (near D eps s t s l && near D eps k l k t)
+/-- the conditions `_randomly_rewire_geomodel_I/II/III` hand to the kernel (generated) -/
+def wrapperOf : GeoMode → LenCond × DegCond
+  | .I => wrapperI
+  | .II => wrapperII
+  | .III => wrapperIII
 
-/-- condition C2 (`cond_len_c2`) -/
-def condC2 (D : Nat → Nat → Int) (eps : Int) (s t k l : Nat) : Bool :=
-  near D eps s t s l && near D eps t s t k && near D eps k l k t && near D eps l k l s
+/-- the function the pointer `cond_len` refers to -/
+def condLenM (c : GeoCfg) (s t k l : Nat) : Bool :=
+  match (wrapperOf c.mode).1 with
+  | .cond_len_c1 => condLenC1 c.D c.eps s t k l
+  | .cond_len_c2 => condLenC2 c.D c.eps s t k l
 
-def condLen (c : GeoCfg) (s t k l : Nat) : Bool :=
-  match c.mode with
-  | .I => condC1 c.D c.eps s t k l
-  | _ => condC2 c.D c.eps s t k l
+/-- `cond_deg is NULL` (`cond_deg_true = NULL`) -/
+def degNullM (c : GeoCfg) : Bool :=
+  match (wrapperOf c.mode).2 with
+  | .null => true
+  | .cond_deg_corr => false
 
-/-- `cond_deg is NULL or cond_deg(degree, s, t, k, l)` -/
-def condDeg (c : GeoCfg) (s t k l : Nat) : Bool :=
-  match c.mode with
-  | .III => c.degree s == c.degree k && c.degree t == c.degree l
-  | _ => true
+/-- the `if` of the loop body: the generated test, applied to the conditions of the mode -/
+def geoAcceptM (c : GeoCfg) (A : Adj) (s t k l : Nat) : Bool :=
+  geoIf A (degNullM c) (condDegCorr c.degree) (condLenM c) s t k l
 
-/-- the `if` of the loop body -/
-def geoAccept (c : GeoCfg) (A : Adj) (s t k l : Nat) : Bool :=
-  (s != k && s != l && t != k && t != l) && (!A s l && !A t k) &&
-    condDeg c s t k l && condLen c s t k l
-
-/-- the eight array writes, in program order -/
-def rewire (A : Adj) (s t k l : Nat) : Adj :=
-  (((((((A.set s t false).set t s false).set k l false).set l k false).set s l true).set
-    l s true).set t k true).set k t true
+/-- the eight array writes (generated list), in program order -/
+def rewireM (A : Adj) (s t k l : Nat) : Adj := applyWrites A (geoWrites s t k l)
 
 structure GeoSt where
   A : Adj
@@ -109,9 +115,9 @@ structure GeoSt where
 def geoStep (c : GeoCfg) (st : GeoSt) (d : Nat × Nat) : Option GeoSt :=
   match st.edges[d.1]?, st.edges[d.2]? with
   | some (s, t), some (k, l) =>
-    if geoAccept c st.A s t k l then
-      some { A := rewire st.A s t k l
-             edges := (st.edges.set d.1 (s, l)).set d.2 (k, t)
+    if geoAcceptM c st.A s t k l then
+      some { A := rewireM st.A s t k l
+             edges := (st.edges.set d.1 (geoEdge1 s t k l)).set d.2 (geoEdge2 s t k l)
              i := st.i + 1 }
     else some st
   | _, _ => none
@@ -120,17 +126,19 @@ def geoStep (c : GeoCfg) (st : GeoSt) (d : Nat × Nat) : Option GeoSt :=
 def geoRun (c : GeoCfg) (iterations : Nat) : List (Nat × Nat) → GeoSt → Option GeoSt
   | [], st => some st
   | d :: ds, st =>
-    if st.i < iterations then (geoStep c st d).bind (geoRun c iterations ds) else some st
+    if geoWhile st.i iterations then (geoStep c st d).bind (geoRun c iterations ds) else some st
 
 /-! ## cross links -/
 
-/-- the list of array writes of `overwriteAdjacency`, in program order -/
+/-- the list of array writes of `overwriteAdjacency`, in program order: both loops, the
+positions read in `nodes1` / `nodes2` (`owRead`), the cell of `cross_A` (`owCell`) and the two
+writes (`owWrites`) are generated; `m = len(nodes1)`, `n = len(nodes2)` at every call site -/
 def overwriteWrites (C : Adj) (nodes1 nodes2 : List Nat) : List (Nat × Nat × Bool) :=
-  nodes1.zipIdx.flatMap fun (n1, i) =>
-    nodes2.zipIdx.flatMap fun (n2, j) => [(n1, n2, C i j), (n2, n1, C i j)]
-
-def applyWrites (A : Adj) (ws : List (Nat × Nat × Bool)) : Adj :=
-  ws.foldl (fun A w => A.set w.1 w.2.1 w.2.2) A
+  (List.range nodes1.length).flatMap fun i =>
+    (List.range nodes2.length).flatMap fun j =>
+      match nodes1[(owRead i j).1]?, nodes2[(owRead i j).2]? with
+      | some n1, some n2 => owWrites n1 n2 (C (owCell i j).1 (owCell i j).2)
+      | _, _ => []
 
 /-- `overwriteAdjacency(A, cross_A, nodes1, nodes2, len nodes1, len nodes2)` -/
 def overwrite (A C : Adj) (nodes1 nodes2 : List Nat) : Adj :=
@@ -142,8 +150,8 @@ def crossSetRun (k : Nat) : List (Nat × Nat) → Adj → Nat → Adj × Nat
   | [], C, done => (C, done)
   | (i, j) :: ds, C, done =>
     if done < k then
-      if C i j then crossSetRun k ds C done
-      else crossSetRun k ds (C.set i j true) (done + 1)
+      if setBreak C i j then crossSetRun k ds (applyWrites C (setWrites i j)) (done + 1)
+      else crossSetRun k ds C done
     else (C, done)
 
 structure CrossSt where
@@ -152,15 +160,34 @@ structure CrossSt where
   /-- number of swaps done -/
   done : Nat
 
-/-- one pass through the `while True` body of `_randomlyRewireCrossLinks` -/
+/-- the value at a location of the exchange `b = cross_links[e1,1]; cross_links[e1,1] =
+cross_links[e2,1]; cross_links[e2,1] = b` -/
+def locGet (st : Nat × List (Nat × Nat)) (e1 e2 : Nat) : Loc → Nat
+  | .tmp => st.1
+  | .l1 => (st.2.getD e1 (0, 0)).2
+  | .l2 => (st.2.getD e2 (0, 0)).2
+
+def locSet (st : Nat × List (Nat × Nat)) (e1 e2 : Nat) (l : Loc) (v : Nat) : Nat × List (Nat × Nat) :=
+  match l with
+  | .tmp => (v, st.2)
+  | .l1 => (st.1, st.2.set e1 ((st.2.getD e1 (0, 0)).1, v))
+  | .l2 => (st.1, st.2.set e2 ((st.2.getD e2 (0, 0)).1, v))
+
+/-- the generated list of moves, executed in order on (local `b`, `cross_links`) -/
+def runMoves (e1 e2 : Nat) (ms : List (Loc × Loc)) (st : Nat × List (Nat × Nat)) :
+    Nat × List (Nat × Nat) :=
+  ms.foldl (fun st m => locSet st e1 e2 m.1 (locGet st e1 e2 m.2)) st
+
+/-- one pass through the `while True` body of `_randomlyRewireCrossLinks` (test, writes and the
+exchange of the link ends are the generated definitions) -/
 def crossStep (st : CrossSt) (d : Nat × Nat) : Option CrossSt :=
   match st.links[d.1]?, st.links[d.2]? with
   | some (a, b), some (c, e) =>
-    if st.C a e || st.C c b then some st
-    else
-      some { C := (((st.C.set a b false).set c e false).set a e true).set c b true
-             links := (st.links.set d.1 (a, e)).set d.2 (c, b)
+    if rewBreak st.C a b c e then
+      some { C := applyWrites st.C (rewWrites a b c e)
+             links := (runMoves d.1 d.2 rewMoves (b, st.links)).2
              done := st.done + 1 }
+    else some st
   | _, _ => none
 
 def crossRun (swaps : Nat) : List (Nat × Nat) → CrossSt → Option CrossSt
@@ -283,7 +310,7 @@ def randomlySetCrossLinks (A : Adj) (nodes1 nodes2 : List Nat) (k : Int)
   (overwrite A R.1 nodes1 nodes2, R.1, R.2)
 
 /-- `number_swaps = NODE(swaps * number_cross_links)` (truncation of a non-negative product) -/
-def swapCount (swaps : Rat) (links : Nat) : Nat := (Rat.floor (swaps * (links : Rat))).toNat
+def swapCount (swaps : Rat) (links : Nat) : Nat := (swapCountSrc swaps (links : Int)).toNat
 
 /-- `RandomlyRewireCrossLinks`: cross block, its list of ones, the kernel, write back. -/
 def randomlyRewireCrossLinks (A : Adj) (nodes1 nodes2 : List Nat) (swaps : Nat)
@@ -299,6 +326,21 @@ def fromEdges (N : Nat) (edges : List (Nat × Nat)) : Option Adj :=
   if edges.all fun e => decide (e.1 < N) && decide (e.2 < N) then
     some fun a b => edges.any fun e => (e.1 == a && e.2 == b) || (e.2 == a && e.1 == b)
   else none
+
+/-- `Network.Configuration(degree)` / `Network.BarabasiAlbert_igraph` after igraph has produced a
+(multi)graph with edge list `es`: `graph.simplify()` (drops self-loops, collapses multiple links)
+followed by `np.array(graph.get_adjacency(type=2).data)` -/
+def simplified (es : List (Nat × Nat)) : Adj := fun a b =>
+  a != b && es.any fun e => (e.1 == a && e.2 == b) || (e.2 == a && e.1 == b)
+
+/-- is there a pair of listed cross links the `while True` of `_randomlyRewireCrossLinks` accepts?
+(`false` = the kernel would draw forever: the call is outside "defined") -/
+def crossAdmissible (C : Adj) (links : List (Nat × Nat)) : Bool :=
+  links.any fun ab => links.any fun ce => !(C ab.1 ce.2 || C ce.1 ab.2)
+
+/-- is there a pair of rows of `edges` the `if` of `_randomly_rewire_geomodel` accepts? -/
+def geoAdmissible (c : GeoCfg) (A : Adj) (edges : List (Nat × Nat)) : Bool :=
+  edges.any fun st => edges.any fun kl => geoAcceptM c A st.1 st.2 kl.1 kl.2
 
 /-- `set_random_links_by_distance`: `A = (p >= 0.5 * (P + P.T))`, `fill_diagonal(A, 0)`;
 generic in the number type (`ge`, `half`, `add` are float64 operations in the code). -/
